@@ -447,7 +447,7 @@ where
 
     // Negate carry before propagation: the carry from normalizing rsh(a)
     // must be subtracted from the lower limbs of res.
-    carry.iter_mut().for_each(|c| *c = -*c);
+    carry[..res.n()].iter_mut().for_each(|c| *c = -*c);
 
     for j in 0..res_end {
         if j == res_end - 1 {
